@@ -74,6 +74,14 @@ for tag in ("A", "B"):
                        *[f"PFV_REPO=<scratch> bin/check {c} {a.tier}" for c in checks], "git worktree remove --force <scratch>"]
         notes = os.path.join(a.dir, "notes.md")
         meta["needs_to_manifest_and_notes"] = open(notes).read()[:3500] if os.path.exists(notes) else ""
+        prev = os.path.join("/verif/seeded", f"{a.pid}-{tag}{a.suffix}", "meta.json")
+        if a.no_suite and os.path.exists(prev):
+            try:
+                pm = json.load(open(prev))
+                if pm.get("suite") and pm.get("base_commit") == meta["base_commit"]:
+                    meta["suite"] = pm["suite"]  # confirmed earlier against the same base commit
+            except Exception:
+                pass
         confirmed = rc0 == 0 and rc1 != 0 and ("missing_from_stable 0" in meta.get("suite", "missing_from_stable 0"))
         meta["confirmed"] = confirmed
         out = os.path.join("/verif/seeded", f"{a.pid}-{tag}{a.suffix}")
